@@ -204,6 +204,13 @@ def sibling(ctx, qn, own_ok, closure, members):
         st = _simple_token(ctx, sp.value, fi) if sp.end == 'return' and sp.value is not None else None
         if st is None and sp.value is not None and any(isinstance(n_, ast.Name) and ('#' in n_.id or '@' in n_.id) for n_ in ast.walk(sp.value)):
             raise AnalysisError(f'{at}: what the exception handler path of {cls.name}.import_token returns is not followed')
+        if st is None and sp.end == 'raise' and any(isinstance(h.type, ast.Name) and isinstance(sp.path.end_node, ast.Raise)
+                                                    and sp.path.end_node.exc is not None and h.type.id in src(sp.path.end_node.exc)
+                                                    for t_ in tries for h in t_.handlers):
+            # the handler raises an exception that another handler of the same function catches (exceptions as control flow between
+            # an inner and an outer try): where that ends is not followed
+            raise AnalysisError(f'{at}: the handler of {cls.name}.import_token raises `{src(sp.path.end_node.exc)[:50]}`, which another handler '
+                                f'of the function catches: not followed')
         if st is None:
             ctx.violation('R1', at, fi.qualname, 'handler-fallback',
                           f'the exception handler ends with {sp.end} `{src(sp.value) if sp.value is not None else ""}`, '
